@@ -64,6 +64,20 @@ impl Monitor for C05 {
                 ctx.check(&case, &|c, st| self.judge(c, st));
             }
         }
+        // the same expression evaluated back to back with placeholders that are equal under == but
+        // different doubles (0.0 / -0.0, NaN payloads, neighbours of 1)
+        for group in super::c14::confusable_groups(ev) {
+            for s in ["@", "1/@", "sqrt(@)", "-@", "@*1", "@+0", "abs(@)", "@%1", "@^1", "0-@", "@/@", "⌊@⌋", "pow(@,3)"] {
+                for rot in 0..group.len() {
+                    if ctx.mine() {
+                        let mut g = group.clone();
+                        g.rotate_left(rot);
+                        let case = Case { ev, kind: "sequence".into(), exprs: vec![s.to_string()], phs: g, extra: String::new() };
+                        ctx.check(&case, &|c, st| self.judge(c, st));
+                    }
+                }
+            }
+        }
         // random trees over the exact operations only
         let poolc = pool.clone();
         let leaf = move |rng: &mut Rng| -> Ast {
@@ -125,6 +139,16 @@ impl Monitor for C05 {
             Ok(p) if !p.unspec => p,
             _ => return Verdict::Skip("not-a-specified-sentence"),
         };
+        if case.kind == "sequence" {
+            for ph in &case.phs {
+                let o = sut::call(case.ev, s, ph);
+                if let RefVerdict::Bad(c, d) = judge_ref(case.ev, &p.ast, ph, &o, false) {
+                    return viol(c, format!("C05|f64|{}|sequence", c), format!("in the sequence {:?}: {} with @={} : {}", case.phs.iter().map(|x| x.show()).collect::<Vec<_>>(), s, ph.show(), d));
+                }
+            }
+            st.inc("sequences_confirmed");
+            return pass(true);
+        }
         let o = sut::call(case.ev, s, &case.phs[0]);
         if let crate::val::Outcome::Ok(Val::F(v)) = &o {
             st.inc(if v.is_nan() {
